@@ -13,12 +13,15 @@ def _sample(seq, n, rnd):
     return [seq[i] for i in sorted(rnd.sample(range(len(seq)), n))]
 
 
-# (family, max statements, sample size quick, sample size thorough); None = all
+# (family, max statements, sample size quick, sample size thorough, decoration variants, decorator options); None = all
 FAMILY_PLAN = [
-    ('exc', 5, 700, None), ('exc', 6, 0, 6000),
-    ('loop', 5, 700, None), ('loop', 6, 0, 6000),
-    ('loopexc', 5, 500, None),
-    ('ctx', 5, 300, 3000),
+    ('exc', 5, 600, None, 1, {}), ('exc', 6, 0, 6000, 1, {}),
+    ('loop', 5, 600, None, 1, {}), ('loop', 6, 0, 6000, 1, {}),
+    ('loopexc', 5, 400, None, 1, {}),
+    ('ctx', 5, 300, 3000, 1, {}),
+    ('nestedtry', 6, None, None, 2, dict(balanced_exc=True)), ('nestedtry', 7, 0, None, 1, dict(balanced_exc=True)),
+    ('tryfin', 6, None, None, 1, dict(balanced_exc=True)),
+    ('tryret', 7, 500, None, 1, {}),
 ]
 
 
@@ -37,7 +40,7 @@ def program_set(tier, seed, loop_else=False):
     sk, r = skeleton.enumerate_skeletons(4, 3, 2, loop_else=loop_else)
     tlcs.append(r)
     progs = skeleton.decorated(sk, 1, seed)
-    for fam, n, nq, nt in FAMILY_PLAN:
+    for fam, n, nq, nt, variants, dopts in FAMILY_PLAN:
         want = nq if quick else nt
         if want == 0:
             continue
@@ -46,7 +49,7 @@ def program_set(tier, seed, loop_else=False):
         sk = [s for s in sk if sum(1 for t in s if t not in ('end', 'else', 'except', 'finally')) > 4]   # <=4 already covered
         if want is not None:
             sk = _sample(sk, want, rnd)
-        progs += skeleton.decorated(sk, 1, seed + len(progs))
+        progs += skeleton.decorated(sk, variants, seed + len(progs), **dopts)
     sk, r = skeleton.enumerate_skeletons(4 if quick else 5, 2, 2, loop_else=loop_else, funcs=True, allowed=skeleton.FAMILIES['fun'])
     tlcs.append(r)
     sk = [s for s in sk if 'def' in s]
